@@ -12,6 +12,7 @@
    lines, the four header lines, and every line after the last block that is read. *)
 From Coq Require Import String.
 Require Import Base Mol Text Molfile V3000 Writer WriterProofs V3000Render.
+Require ParamsSpec.   (* regenerated source constants still match what the model hard-codes *)
 Require V2000.
 
 (* 1. main statement: the reader returns one atom per non-star atom line, in file order, with the
